@@ -25,7 +25,7 @@ def _run(args):
             if r.job.irfacts: extra['traces'][p['id']] = ('static fact not found in the IR', {}); continue
             try: extra['traces'][p['id']] = vf.trace_for(r, p)
             except Exception as ex: extra['traces'][p['id']] = ('trace unavailable: %s' % ex, {})
-    return {'key': r.key, 'job': jid, 'cfg': cfg, 'variant': r.variant, 'status': r.status, 'reason': r.reason, 'props': r.props, 'solver_s': r.solver_s,
+    return {'key': r.key, 'job': jid, 'cfg': cfg, 'variant': r.variant, 'status': r.status, 'reason': r.reason, 'props': r.props, 'solver_s': r.solver_s, 'cached': bool(getattr(r, 'cached', False)),
             'wall_s': r.wall_s, 'failed': r.failed, 'known_hit': r.known_hit, 'canaries': r.canaries, 'info': r.info, 'cmd': r.cmd,
             'n_obl': getattr(r, 'n_obl', 0), 'n_ok': getattr(r, 'n_ok', 0), 'log_tail': r.log[-3000:] if r.status != 'proved' else '', **extra}
 
@@ -150,10 +150,11 @@ def main():
             level = chk[0]['level_claimed']['category'] if chk else 'proof'
             cov = {'obligations': n_obl, 'discharged': n_ok,
                    'checker_cmd': 'clang++-14 -O0 -emit-llvm (per configuration) | tools/ll2c.py | goto-cc | goto-instrument --dfcc (jobs marked dfcc) | ' + (results[0]['cmd'] if results else 'cbmc'),
+                   'solver_cache_note': 'solver_s is the back-end time of the run that produced the result; jobs marked solver_result_reused_from_cache had a byte-identical preprocessed verification input and back-end command (sha256) in an earlier run on this machine - extraction, translation and goto-cc were redone now (VERIF_NO_CACHE=1 disables reuse)',
                    'trusted_base': ['clang 14 front end (IR is the verified text; shipped build uses g++ 12)', 'tools/ll2c.py IR->C translation (DESIGN.md 3.2)', 'CBMC 6.11 + MiniSat',
                                     'rt/verif_rt*.h intrinsic models', 'rt/verif_models.h externals: ' + ', '.join(sorted(ext)) if ext else 'no externals reached'] + trusted,
                    'functions_under_contract': fns, 'jobs': [{'job': r['key'], 'status': r['status'], 'obligations': r['n_obl'], 'discharged': r['n_ok'], 'canaries_failed_as_required': r['canaries'],
-                                                             'solver_s': round(r['solver_s'], 1), 'functions_in_closure': r['info'].get('n_functions'), 'dfcc': bool(byid[r['job']].dfcc)} for r in results],
+                                                             'solver_s': round(r['solver_s'], 1), 'solver_result_reused_from_cache': r.get('cached', False), 'functions_in_closure': r['info'].get('n_functions'), 'dfcc': bool(byid[r['job']].dfcc)} for r in results],
                    'callees_replaced_by_contract': sorted(stubs), 'bounded_stand_ins_not_counted_as_proved': bounded,
                    'configurations': sorted(set(r['cfg'] for r in results)), 'solver_s_total': round(sum(r['solver_s'] for r in results), 1),
                    'undecided_jobs': [r['key'] + ': ' + r['reason'][:200] for r in undecided], 'known_findings_reported': sorted(set(known_lines)),
